@@ -341,11 +341,12 @@ theorem pdc_ok (t : IntTy) (r : Nat) (feats : Features) (p nm sub : Bool) (rest 
 /-! ## the digit phase -/
 
 theorem digitsPhase_simple (e : Env) (hs : Simple e.c) (isNeg : Bool) (b : Bytes) (start : Nat)
-    (hne : b.index < b.slc.length) :
+    (hle : b.index ≤ b.slc.length) (hpos : 0 < b.slc.length) :
     (match digitsPhase e isNeg b start with | .ok r => r | .error r => r) =
       ofM (LexVerif.Proof.ParseInt.body e.c.feats e.t e.radix e.partial_ e.noMulti isNeg b.asSlice b.index b.slc.length) := by
   have hlen : b.index + b.asSlice.length = b.slc.length := by simp only [Bytes.asSlice, List.length_drop]; omega
-  simp only [digitsPhase, hs.hd, Bool.false_and, Bool.false_eq_true, if_false, LexVerif.Proof.ParseInt.body]
+  simp only [digitsPhase, digitsBody, negBlock, mainBlock, hs.hd, Bool.false_and, Bool.false_eq_true, if_false,
+    LexVerif.Proof.ParseInt.body]
   have fin : ∀ (x : Nat) (st : ParseInt.Flow (Nat × Nat)), (∀ v c, st = .ok (v, c) → c = b.slc.length) →
       (match (match conv { b with ic := x } st with
               | .error r => .error r
@@ -508,6 +509,6 @@ theorem parseIntFormat_simple_eq (e : Env) (hs : Simple e.c) (hp : e.c.fmt.baseP
         simp only [hemp, decide_false, Bool.false_eq_true, if_false, hne, and_false]
         rw [prefixZeros_none e hs hp hz]
         have := digitsPhase_simple e hs (decide (s.head? = some 45 ∧ e.t.signed = true))
-          ⟨s, signLen e.t s, 0, 0, 0⟩ (signLen e.t s) (by simp only; omega)
+          ⟨s, signLen e.t s, 0, 0, 0⟩ (signLen e.t s) (by simp only; omega) (by simp only; omega)
         simp only [Bytes.asSlice] at this
         exact this
